@@ -92,8 +92,68 @@ func genLF(r *rand.Rand, depth int) string {
 	return head
 }
 
+// templates of `| line_format`: text runs and actions of the fragment transcribed in model/LogqlTemplate.v (the dot, field
+// chains, several operands, pipes, both trim markers), a few templates Parse refuses, text with bytes that matter to the SQL
+// string literal or to ClickHouse's format() pattern
+var tplTexts = []string{"", "x", "a b", " ", "  ", "\t", "{", "}", "{0}", "{}", "it's", "\\", "%", "é", "lvl=", " - ", "}}", "{ {", "\n"}
+var tplFields = []string{"a", "job", "level", "_x1", "pod_name", "status", "Level", "x9", "a.b", "a.b.c", "job.level"}
+var tplBad = []string{"{{ }}", "{{}}", "{{.a", "{{ | .a }}", "{{.a.}}", "{{..a}}", "{{.a | . }}", "{{ .a", "{{- }}", "{{ -}}", "{{.a | | .b}}", "{{. .}}"}
+
+func genAction(r *rand.Rand) string {
+	f := func() string { return "." + pick(r, tplFields) }
+	body := ""
+	switch r.Intn(12) {
+	case 0, 1, 2, 3, 4:
+		body = f()
+	case 5:
+		body = " " + f() + " "
+	case 6:
+		body = f() + " " + f()
+	case 7:
+		body = f() + []string{"|", " | ", "| ", " |"}[r.Intn(4)] + f()
+	case 8:
+		body = []string{".", " . ", ". " + f(), f() + " ."}[r.Intn(4)]
+	case 9:
+		body = f() + []string{"|", " | "}[r.Intn(2)]
+	case 10:
+		body = "\t" + f() + "\n"
+	default:
+		body = f() + "  " + f() + " | " + f()
+	}
+	l, rt := "{{", "}}"
+	if r.Intn(5) == 0 {
+		l = "{{- "
+	}
+	if r.Intn(5) == 0 {
+		rt = " -}}"
+	}
+	return l + body + rt
+}
+
+func genTemplate(r *rand.Rand) string {
+	t := ""
+	n := r.Intn(5)
+	for i := 0; i < n; i++ {
+		if r.Intn(2) == 0 {
+			t += pick(r, tplTexts)
+		} else {
+			t += genAction(r)
+		}
+	}
+	if r.Intn(12) == 0 {
+		t += pick(r, tplBad)
+		if r.Intn(2) == 0 {
+			t += pick(r, tplTexts)
+		}
+	}
+	return t
+}
+
 func genStage(r *rand.Rand, class *[]string) string {
-	switch r.Intn(10) {
+	switch r.Intn(11) {
+	case 10:
+		*class = append(*class, "lineformat")
+		return " | line_format " + quoted(r, genTemplate(r))
 	case 0, 1, 2, 3:
 		*class = append(*class, "linefilter")
 		op := []string{"|=", "!=", "|~", "!~"}[r.Intn(4)]
